@@ -2187,13 +2187,17 @@ impl Server {
             }
             Some(RequestType::RemoveListener(ref remove)) => {
                 debug!("{} remove {:?} listener {:?}", req_id, remove.proxy, remove);
-                // We only remove a listener that was previously added, so the
-                // base count is at least 1 — the subtraction cannot underflow.
-                debug_assert!(
-                    self.base_sessions_count > 0,
-                    "removing a listener with base_sessions_count == 0 would underflow"
-                );
-                self.base_sessions_count -= 1;
+                // Only the listeners the proxy really holds at this address are
+                // removed: each gives back its slab entry and its share of the
+                // base count (both taken when the listener was added).
+                let address: std::net::SocketAddr = remove.address.into();
+                let tokens = match ListenerType::try_from(remove.proxy) {
+                    Ok(ListenerType::Http) => self.http.borrow().listener_tokens(&address),
+                    Ok(ListenerType::Https) => self.https.borrow().listener_tokens(&address),
+                    Ok(ListenerType::Tcp) => self.tcp.borrow().listener_tokens(&address),
+                    Ok(ListenerType::Udp) => self.udp.borrow().listener_tokens(&address),
+                    Err(_) => Vec::new(),
+                };
                 let response = match ListenerType::try_from(remove.proxy) {
                     Ok(ListenerType::Http) => self.http.borrow_mut().notify(request),
                     Ok(ListenerType::Https) => self.https.borrow_mut().notify(request),
@@ -2201,6 +2205,20 @@ impl Server {
                     Ok(ListenerType::Udp) => self.udp.borrow_mut().notify(request),
                     Err(_) => WorkerResponse::error(req_id, "Wrong variant ListenerType"),
                 };
+                for token in tokens {
+                    self.accept_ready.remove(&ListenToken(token.0));
+                    let mut sessions = self.sessions.borrow_mut();
+                    if sessions.slab.contains(token.0) {
+                        sessions.slab.remove(token.0);
+                    }
+                    // The listener was counted when it was added, so the base
+                    // count is at least 1 — the subtraction cannot underflow.
+                    debug_assert!(
+                        self.base_sessions_count > 0,
+                        "removing a listener with base_sessions_count == 0 would underflow"
+                    );
+                    self.base_sessions_count -= 1;
+                }
                 push_queue(response);
             }
             Some(RequestType::ActivateListener(ref activate)) => {
